@@ -185,6 +185,16 @@ func (l lastChooser) choose(p pair) int { return p.list[len(p.list)-1-p.pick] + 
 
 func describePair(p pair, label string) string { return fmt.Sprint(label, len(p.list), p.pick) }
 
+type box struct{ v int }
+
+// takes its parameter by value and returns the address of that copy
+func boxed(b box) *box { return &b }
+
+func bumpCopy(b box) int {
+	b.v++
+	return b.v
+}
+
 // ---- known functions (kept) ----
 
 func run(v interface{}, w *wrapper) (err error) {
@@ -283,7 +293,15 @@ func objects() {
 	emit(tag("x") + tag("y"))
 }
 
+func copies() {
+	orig := box{v: 1}
+	p1 := boxed(orig)
+	p1.v = 50
+	emit(fmt.Sprint("copy ", orig.v, " ", p1.v, " ", bumpCopy(orig), " ", orig.v))
+}
+
 func main() {
+	copies()
 	structs()
 	objects()
 	w := &wrapper{base: &base{prefix: "w"}}
